@@ -7,6 +7,7 @@ mod monchecks;
 mod monitors;
 mod ops;
 mod pure;
+mod statecheck;
 mod structs;
 mod txcheck;
 
@@ -51,6 +52,11 @@ fn main() {
         "C12" => structs::c12(&mut ctx),
         "C13" => pure::c13(&mut ctx),
         "C14" => pure::c14(&mut ctx),
+        "C15" => statecheck::c15(&mut ctx),
+        "C16" => statecheck::c16(&mut ctx),
+        "C17" => statecheck::c17(&mut ctx),
+        "C18" => statecheck::c18(&mut ctx),
+        "C19" => statecheck::c19(&mut ctx),
         "C21" => histcheck::c21(&mut ctx),
         "C22" => histcheck::c22(&mut ctx),
         "C25" => monchecks::c25(&mut ctx),
